@@ -26,6 +26,12 @@ def register4(E):
             owned = not isinstance(x, Ref)
             from .models3 import HMKeyRef, HMValRef
             return It('list', l=[Agg([x0.items[i][0], x0.items[i][1]] if owned else [HMKeyRef(x0, i), HMValRef(x0, i)], 'tup') for i in p], pos=0)
+        from .models2 import HashTableM
+        if isinstance(x0, HashTableM):
+            p = E.pick_order(len(x0.items))
+            return It('list', l=[(Ref(x0.items[i][1], 0) if isinstance(x, Ref) else x0.items[i][1][0]) for i in p], pos=0)
+        if isinstance(x0, BTreeMapM):
+            return It('list', l=[Agg([Ref([k], 0), Ref(cell, 0)] if isinstance(x, Ref) else [k, cell[0]], 'tup') for k, cell in x0.items], pos=0)
         if isinstance(x0, Vec) and x0.ty == 'HashSet':
             p = E.pick_order(len(x0.l))
             return It('list', l=[(x0.l[i] if not isinstance(x, Ref) else Ref(x0.l, i)) for i in p], pos=0)
@@ -340,6 +346,12 @@ def register4(E):
         for i in idx:
             if truth(e, e.closure_call(a[1], [xs[i]])): return SOME(i)
         return NONE()
+    @R(r'^(std|core)::mem::(drop|forget)::<')
+    def _(e, c, a): return UNIT
+    @R(r'as Itertools>::positions::<')
+    def _(e, c, a):
+        xs = drain(it_of(a[0]))
+        return It('list', l=[i for i, x in enumerate(xs) if truth(e, e.closure_call(a[1], [x]))], pos=0)
     @R(r'as Iterator>::last$')
     def _(e, c, a): xs = drain(it_of(a[0])); return SOME(xs[-1]) if xs else NONE()
     @R(r'as Iterator>::nth$')
@@ -526,14 +538,28 @@ def register4(E):
         hm = deref(a[0]); p = e.pick_order(len(hm.items))
         if 'values_mut' in c: return It('list', l=[HMValRef(hm, i) for i in p], pos=0)
         return It('list', l=[Agg([HMKeyRef(hm, i), HMValRef(hm, i)], 'tup') for i in p], pos=0)
-    @R(r'(hash_map::)?Entry::<.*>::or_insert_with::<|(hash_map::)?Entry::<.*>::or_default$|(hash_map::)?Entry::<.*>::or_insert$')
+    @R(r'Entry::<.*>::or_insert_with::<|Entry::<.*>::or_default$|Entry::<.*>::or_insert$')
     def _(e, c, a):
         en = a[0]
         from .models3 import HMValRef
-        if en.ty == 'Entry':
+        def newval():
+            if c.endswith('or_insert'): return a[1]
+            if 'or_insert_with' in c: return e.closure_call(a[1], [])
+            t = c.split('Entry::<', 1)[1]
+            if re.search(r'(Vec|SmallVec)<[^,]*>>?::or_default$', c) or ', Vec<' in t or ', std::vec::Vec<' in t: return Vec([])
+            if re.search(r', (usize|u32|u64|i32|i64|u8)>', t): return 0
+            raise EngineError('or_default value type in ' + c)
+        if en.ty == 'Entry':              # std HashMap
             if en.v == 'Vacant':
-                hm, key = en.f
-                val = a[1] if c.endswith('or_insert') else (e.closure_call(a[1], []) if 'or_insert_with' in c else 0)
-                hm.items.append((key, val)); return HMValRef(hm, len(hm.items) - 1)
+                hm, key = en.f; hm.items.append((key, newval())); return HMValRef(hm, len(hm.items) - 1)
             hm, i = en.f; return HMValRef(hm, i)
+        if en.ty == 'HTEntry':            # hashbrown::HashTable
+            if en.v == 'Vacant':
+                ht, h = en.f; ht.items.append((h, [newval()])); return Ref(ht.items[-1][1], 0)
+            ht, i = en.f; return Ref(ht.items[i][1], 0)
+        if en.ty == 'BTEntry':            # BTreeMap with concrete keys
+            if en.v == 'Vacant':
+                bm, k = en.f; bm.items.append((k, [newval()])); bm.items.sort(key=lambda kv: kv[0]); i = [kk for kk, _ in bm.items].index(k)
+            else: bm, i = en.f
+            return Ref(bm.items[i][1], 0)
         raise EngineError('entry kind ' + str(en.ty))
